@@ -463,6 +463,68 @@ Proof.
       apply Nat.eqb_eq. rewrite <- D. symmetry. exact Hl'.
 Qed.
 
+Theorem stage_rel_c_b_ok (M : transducer T) uses incap ins outs closed cancelled calls :
+  stage_rel_c_b Teqb M uses incap ins outs closed cancelled calls = true <->
+  stage_rel_c M uses incap ins outs closed cancelled calls.
+Proof.
+  unfold stage_rel_c_b, stage_rel_c. rewrite existsb_exists. split.
+  - intros (n & Hn & Hb). apply in_seq in Hn.
+    apply andb_true_iff in Hb as [Hb HC].
+    apply andb_true_iff in Hb as [Hb H3]. apply andb_true_iff in Hb as [H1 H2]. apply andb_true_iff in H1 as [H1 HL].
+    apply Nat.leb_le in H1. apply prefix_b_ok in H2. apply leqb_ok in HC.
+    assert (Hl : length (firstn n ins) = n) by (rewrite firstn_length; lia).
+    exists (firstn n ins). split; [apply prefix_firstn; exists n; split; [lia|reflexivity]|].
+    split; [lia|]. split; [exact HL|]. split; [exact H2|]. split; [|exact HC].
+    intros Hc Hx. subst closed cancelled. cbn [negb orb] in H3.
+    apply andb_true_iff in H3 as [H3 H4]. apply leqb_ok in H3. split; [exact H3|].
+    apply orb_true_iff in H4 as [H4|H4]; [left|now right].
+    apply Nat.eqb_eq in H4. subst n. apply firstn_all.
+  - intros (c & Hp & Hl & HL & Ho & Hc & HC). apply prefix_firstn in Hp as (n & Hn & ->).
+    assert (Hl' : length (firstn n ins) = n) by (rewrite firstn_length; lia).
+    exists n. split; [apply in_seq; lia|].
+    rewrite Hl' in Hl. apply andb_true_iff. split; [|now apply leqb_ok].
+    apply andb_true_iff. split; [apply andb_true_iff; split; [apply andb_true_iff; split|]|].
+    + apply Nat.leb_le. lia.
+    + exact HL.
+    + now apply prefix_b_ok.
+    + destruct closed; [|reflexivity]. destruct cancelled; [reflexivity|]. cbn [negb orb].
+      destruct (Hc eq_refl eq_refl) as [E D]. apply andb_true_iff. split; [now apply leqb_ok|].
+      apply orb_true_iff. destruct D as [D|D]; [left|now right].
+      apply Nat.eqb_eq. rewrite <- D. symmetry. exact Hl'.
+Qed.
+
+Lemma stage_rel_c_weaken (M : transducer T) uses incap ins outs closed cancelled calls :
+  stage_rel_c M uses incap ins outs closed cancelled calls -> stage_rel M incap ins outs closed cancelled.
+Proof. intros (c & H1 & H2 & H3 & H4 & H5 & _). exists c. auto. Qed.
+
+(* every trace, with the user-function calls the model makes on it: exactly the received elements the combinator
+   evaluates, in order, once each, and nothing else *)
+Theorem stage_safe_c (M : transducer T) uses nil_in tr s :
+  run (step Teqb M) (stage_init M nil_in) tr = Some s ->
+  stage_rel_c M uses 0 (ins_of 0 tr) (outs_of 0 tr) (closed_of 0 tr) (has_ctx tr) (tr_calls M uses 0 (ins_of 0 tr)).
+Proof.
+  intros H. destruct (stage_safe M nil_in tr s H) as (c & Hp & Hl & HL & Ho & Hc).
+  assert (c = ins_of 0 tr).
+  { destruct Hp as [r E]. assert (length r = 0) by (rewrite E, app_length in Hl; lia).
+    destruct r; [|discriminate]. now rewrite app_nil_r in E. }
+  subst c. exists (ins_of 0 tr). auto 10.
+Qed.
+
+Lemma mask_false (l : list T) : map snd (filter fst (combine (repeat false (length l)) l)) = [].
+Proof. induction l as [|y l IH]; [reflexivity|]. cbn. exact IH. Qed.
+
+(* the user function only ever sees received elements, in their order, each at most once *)
+Lemma tr_calls_sub (M : transducer T) uses : forall c q, exists mask : list bool,
+  length mask = length c /\ tr_calls M uses q c = map snd (filter fst (combine mask c)).
+Proof.
+  induction c as [|x c IH]; intros q; [exists []; split; reflexivity|].
+  cbn [tr_calls]. destruct (t_fin M q).
+  - exists (repeat false (length (x :: c))). split; [now rewrite repeat_length|].
+    symmetry. apply mask_false.
+  - destruct (IH (fst (t_react M q x))) as (m & Hm & E). exists (uses q :: m). split; [cbn; now rewrite Hm|].
+    cbn [combine filter fst]. destruct (uses q); cbn [map snd app]; now rewrite E.
+Qed.
+
 (* a FIFO buffer of capacity [cap] in front of the stage: the relation over what was handed to the buffer *)
 Lemma stage_rel_buffer (M : transducer T) c ins cap outs closed cancelled :
   stage_rel M 0 c outs closed cancelled -> prefix c ins -> length ins <= length c + cap ->
